@@ -36,7 +36,11 @@ var c14Params = []string{
 func exchangeMsgs() [][]byte {
 	a := expand(ckText, 11, 2500)
 	b := expand(ckText, 12, 1800)
-	return [][]byte{a, a, append(append([]byte(nil), b...), a...), []byte("short uncompressed"), b, append(append([]byte(nil), a[:700]...), b[:700]...)}
+	// r does not compress; it is sent twice and then in part: what an endpoint does with a message
+	// that compression does not shrink must keep both ends' windows in step
+	r := expand(ckRandom, 13, 1500)
+	return [][]byte{a, a, append(append([]byte(nil), b...), a...), []byte("short uncompressed"), b, append(append([]byte(nil), a[:700]...), b[:700]...),
+		r, r, append(append([]byte(nil), r[:600]...), a[:300]...)}
 }
 
 // exchange runs a multi-message exchange in both directions between the library
